@@ -7,12 +7,12 @@ RULE = "Same program space as C09 with deletions weighted up over diagrams with 
 ASSUMPTIONS = ['live SQLite (in-memory) with foreign keys enforced immediately',
                'reference store vlib/refstore.py written from the documented relationship/cascade/key semantics (DESIGN.md section 7a)',
                'table and column names are taken from the mapping metadata (names only)']
-SHARDS = {'quick': 4, 'thorough': 16}
-MIN_EVALS = {'quick': 400, 'thorough': 5000}
+SHARDS = {'quick': 8, 'thorough': 16}
+MIN_EVALS = {'quick': 3000, 'thorough': 5000}
 PROPS = {'C15', 'C09'}
 WEIGHTS = {'del': 9, 'crem': 4, 'cclear': 2, 'create': 6}
 
-run = sesscheck.make_run(ID, PROPS, 500, 6000, weights=WEIGHTS,
+run = sesscheck.make_run(ID, PROPS, 1000, 8000, weights=WEIGHTS, hub_share=(1, 2),
                          nontrivial=lambda program, stats: stats.get('op:del', 0) + stats.get('op:crem', 0) + stats.get('op:cclear', 0) > 0 and stats.get('commits', 0) > 1)
 replay = sesscheck.make_replay(ID, PROPS)
 
